@@ -253,7 +253,7 @@ def run_units(repo, specs, units, jobs=16, timeout_ms=10000, unit_deadline_s=Non
     always honour its own timeout): a unit that exceeds it is reported as status 'timeout' (undecided)"""
     _G['repo'], _G['specs'] = repo, specs
     if unit_deadline_s is None:
-        unit_deadline_s = max(240, timeout_ms * 40 // 1000)
+        unit_deadline_s = max(900, timeout_ms * 60 // 1000)      # generous: wall-clock, so it must hold on a busy machine
     if jobs <= 1 and len(units) <= 1 and not os.environ.get('PYVC_FORK'):
         return [_work((u, timeout_ms)) for u in units]
     ctx = multiprocessing.get_context('fork')
